@@ -38,6 +38,19 @@ Definition apc_is (a : nat) (p : apc_t) (s : st) : bool := if apc_t_eq_dec (apc 
 Definition rpc_is (r : nat) (p : rpc_t) (s : st) : bool := if rpc_t_eq_dec (rpc (R s r)) p then true else false.
 Definition znz (v : Z) : bool := negb (Z.eqb v 0).
 
+(* the clock of the model is a LOWER BOUND of the virtual clock (exact at every logged clock value).  When the
+   code treats a deadline d as due, the clock had reached d when the timer thread read it: the model catches up *)
+Definition raise_to (d : N) : M := fun s =>
+  ((if (now s <? d)%N then doA (Tick (d - now s)) else ret) >>
+   (fun s1 => if (tnow s1 <? d)%N then doA (TClock d) s1 else [s1])) s.
+(* nothing is due: the sleep time is computed; for the wake time to be a lower bound too, the clock reading is
+   taken as late as the observations allow (not beyond the clock, below the aim) *)
+Definition settle : M := fun s =>
+  match hmin (heap s) with
+  | Some t => let v := N.min (now s) (t - 1) in if (tnow s <? v)%N then doA (TClock v) s else [s]
+  | None => [s]
+  end.
+
 (* the timer thread's steps that leave no record *)
 Fixpoint tsilent (fuel : nat) : M := fun s =>
   match fuel with
@@ -45,8 +58,8 @@ Fixpoint tsilent (fuel : nat) : M := fun s =>
   | S k =>
       match tpc s with
       | TU | TN | SH | PK => (doA (TStep 0) >> tsilent k) s
-      | SK => if none_due (tnow s) (heap s) then (doA (TStep 0) >> tsilent k) s
-              else flat_map (fun c => (doA (TStep c) >> tsilent k) s) (map snd (heap s))
+      | SK => (if none_due (tnow s) (heap s) then (settle >> doA (TStep 0) >> tsilent k) s else []) ++
+              flat_map (fun x => (raise_to (fst x) >> doA (TStep (snd x)) >> tsilent k) s) (heap s)
       | _ => [s]
       end
   end.
@@ -65,6 +78,21 @@ Definition timeout_wake : M := fun s =>
   | _ => [s]
   end.
 
+(* the park had already timed out when the unpark came (the timer thread was runnable, or stalled, and has not
+   produced an event since): the unpark leaves a token behind *)
+Definition early_timeout : M := fun s =>
+  match tpc s, twake s with
+  | W, Some t => if tok s then [] else ((if (now s <? t)%N then doA (Tick (t - now s)) else ret) >> doA (TStep 0)) s
+  | _, _ => []
+  end.
+Definition unpark_by (u : M) : M := fun s => (u >> wake_if_parked) s ++ (early_timeout >> u) s.
+(* a logged clock value at or past the wake time: the harness has made the parked timer thread runnable *)
+Definition timeout_due : M := fun s =>
+  match tpc s, twake s with
+  | W, Some t => if negb (tok s) && (t <=? now s)%N then doA (TStep 0) s else [s]
+  | _, _ => [s]
+  end.
+
 (* Entry::remove on an entry that is gone touches nothing shared *)
 Definition dr_silent : M := fun s =>
   match tpc s with DR => if has_id (thid s) (lst s (thL s)) then [] else doA (TStep 0) s | _ => [s] end.
@@ -80,7 +108,7 @@ Definition push_force (a : nat) : M := fun s => if apc_is a A6 s then doA (AStep
 (* the clock as logged by the scenario *)
 Definition clock (v : Z) : M := fun s =>
   let t := Z.to_N v in
-  if (now s <? t)%N then doA (Tick (t - now s)) s else if (now s =? t)%N then [s] else [].
+  ((fun s => if (now s <? t)%N then doA (Tick (t - now s)) s else if (now s =? t)%N then [s] else []) >> timeout_due) s.
 
 Definition nat_of (z : Z) : nat := Z.to_nat z.
 
@@ -115,7 +143,13 @@ Definition tev (hb ib : list (Z * N)) (acts : list nat) (code obj val : Z) : M :
   | 11 => pre' >> guard (fun s => tpc_is SI s && bound_to obj (tL s) ib) >> T
   | 36 => pre' >> guard (fun s => tpc_is P1 s && bound_to obj (tL s) hb) >> T
   | 37 => pre' >> guard (tpc_is P2) >>
-          guard (fun s => match lst s (tL s) with e :: _ => Bool.eqb (elk e) (znz val) | [] => false end) >> T
+          guard (fun s => match lst s (tL s) with e :: _ => Bool.eqb (elk e) (znz val) | [] => false end) >>
+          (fun s => match lst s (tL s) with
+                    | e :: _ => if elk e
+                                then (if (tnow s <? edl e)%N then T s else []) ++ (raise_to (edl e) >> T) s
+                                else T s
+                    | [] => []
+                    end)
   | 38 => pre' >> guard (tpc_is P3) >> T
   | 5 => pre' >> guard (fun s => tpc_is PF s && Nat.eqb (eid (tcur s)) (nat_of obj)) >> clock val >> T
   | 34 => pre' >> guard (fun s => (tpc_is K1 s || tpc_is K3 s) && bound_to obj (tL s) hb) >> T
@@ -140,7 +174,7 @@ Definition uev (hb ib : list (Z * N)) (a : nat) (code obj val : Z) : M :=
   | 10 => guard (fun s => apc_is a A5 s && bound_to obj (aiv (A s a)) ib && Z.eqb (Z.of_nat (inuse s (aiv (A s a)))) val) >> SA >>
           (fun s => if tpc_is SI s then [s] else push_force a s)
   | 14 => push_force a >> guard (fun s => apc_is a A7 s && Bool.eqb (slot s) (znz val)) >> SA >>
-          (fun s => if apc_is a A8 s then (SA >> wake_if_parked) s else [s])
+          (fun s => if apc_is a A8 s then unpark_by SA s else [s])
   | 2 => guard (fun s => apc_is a AIdle s && Nat.eqb (aid (A s a)) (nat_of obj))
   | 3 => guard (fun s => apc_is a AIdle s && rpc_is a RIdle s) >> clock val >>
          (fun s => match find_handle (nat_of obj) (handles s) with Some L => doA (Del a L (nat_of obj)) s | None => [] end)
@@ -149,7 +183,7 @@ Definition uev (hb ib : list (Z * N)) (a : nat) (code obj val : Z) : M :=
   | 22 => guard (rpc_is a R2)
   | 23 => guard (rpc_is a R2) >> SR
   | 15 => guard (fun s => rpc_is a R3 s && Bool.eqb (slot s) (znz val)) >> SR >>
-          (fun s => if rpc_is a R4 s then (SR >> wake_if_parked) s else [s])
+          (fun s => if rpc_is a R4 s then unpark_by SR s else [s])
   | 4 => guard (rpc_is a RIdle)
   | 6 => clock val
   | _ => fail
@@ -244,14 +278,29 @@ Proof.
   intros Hf s R. induction (g s) as [|c l IHl]; cbn; [constructor|]. apply Forall_app. split; auto. apply Hf; auto.
 Qed.
 
+Lemma ok_raise_to d : okM (raise_to d).
+Proof.
+  intros s R. unfold raise_to.
+  apply (ok_bnd (if (now s <? d)%N then doA (Tick (d - now s)) else ret)
+                (fun s1 => if (tnow s1 <? d)%N then doA (TClock d) s1 else [s1])); auto.
+  - destruct (now s <? d)%N; auto using ok_doA, ok_ret.
+  - intros s1 R1. destruct (tnow s1 <? d)%N; [apply ok_doA; auto | constructor; auto].
+Qed.
+Lemma ok_settle : okM settle.
+Proof.
+  intros s R. unfold settle. destruct (hmin (heap s)); [|constructor; auto].
+  cbv zeta. destruct (tnow s <? N.min (now s) (n - 1))%N; [apply ok_doA; auto | constructor; auto].
+Qed.
 Lemma ok_tsilent k : okM (tsilent k).
 Proof.
   induction k as [|k IH]; intros s R; cbn [tsilent]; [constructor; auto|].
   assert (K : okM (doA (TStep 0) >> tsilent k)) by (apply ok_bnd; [apply ok_doA | exact IH]).
   destruct (tpc s); try (constructor; auto; fail); try (apply K; auto).
-  destruct (none_due (tnow s) (heap s)); [apply K; auto|].
-  apply (ok_flat (fun c => doA (TStep c) >> tsilent k) (fun s => map snd (heap s))); auto.
-  intros c. apply ok_bnd; [apply ok_doA | exact IH].
+  apply Forall_app. split.
+  - destruct (none_due (tnow s) (heap s)); [|constructor].
+    apply (ok_bnd settle (doA (TStep 0) >> tsilent k)); auto using ok_settle.
+  - apply (ok_flat (fun x => raise_to (fst x) >> doA (TStep (snd x)) >> tsilent k) (fun s => heap s)); auto.
+    intros x. apply ok_bnd; [apply ok_raise_to | apply ok_bnd; [apply ok_doA | exact IH]].
 Qed.
 Lemma ok_wake_if_parked : okM wake_if_parked.
 Proof. intros s R. unfold wake_if_parked. destruct (tpc s); try (constructor; auto; fail). destruct (tok s); [apply ok_doA; auto | constructor; auto]. Qed.
@@ -275,15 +324,35 @@ Proof.
 Qed.
 Lemma ok_push_force a : okM (push_force a).
 Proof. intros s R. unfold push_force. destruct (apc_is a A6 s); [apply ok_doA; auto | constructor; auto]. Qed.
+Lemma ok_timeout_due : okM timeout_due.
+Proof.
+  intros s R. unfold timeout_due. destruct (tpc s); try (constructor; auto; fail).
+  destruct (twake s); [|constructor; auto]. destruct (negb (tok s) && (n <=? now s)%N); [apply ok_doA; auto | constructor; auto].
+Qed.
 Lemma ok_clock v : okM (clock v).
 Proof.
-  intros s R. unfold clock. destruct (now s <? Z.to_N v)%N; [apply ok_doA; auto|].
-  destruct (now s =? Z.to_N v)%N; constructor; auto.
+  intros s R. unfold clock. cbv zeta.
+  apply (ok_bnd (fun s => if (now s <? Z.to_N v)%N then doA (Tick (Z.to_N v - now s)) s else if (now s =? Z.to_N v)%N then [s] else []) timeout_due); auto using ok_timeout_due.
+  intros s1 R1. destruct (now s1 <? Z.to_N v)%N; [apply ok_doA; auto|].
+  destruct (now s1 =? Z.to_N v)%N; constructor; auto.
+Qed.
+Lemma ok_early_timeout : okM early_timeout.
+Proof.
+  intros s R. unfold early_timeout. destruct (tpc s); try constructor. destruct (twake s); [|constructor].
+  destruct (tok s); [constructor|].
+  apply (ok_bnd (if (now s <? n)%N then doA (Tick (n - now s)) else ret) (doA (TStep 0))); auto using ok_doA.
+  destruct (now s <? n)%N; auto using ok_doA, ok_ret.
+Qed.
+Lemma ok_unpark_by u : okM u -> okM (unpark_by u).
+Proof.
+  intros Hu s R. unfold unpark_by. apply Forall_app. split.
+  - apply (ok_bnd u wake_if_parked); auto. apply ok_wake_if_parked.
+  - apply (ok_bnd early_timeout u); auto. apply ok_early_timeout.
 Qed.
 
 Ltac okt :=
   repeat first
-    [ apply ok_tsilent | apply ok_wake_if_parked | apply ok_timeout_wake | apply ok_dr_silent
+    [ apply ok_tsilent | apply ok_raise_to | apply ok_unpark_by | apply ok_wake_if_parked | apply ok_timeout_wake | apply ok_dr_silent
     | apply ok_push_branch | apply ok_push_force | apply ok_clock
     | apply ok_guard | apply ok_doA | apply ok_ret | apply ok_fail
     | apply ok_bnd | apply ok_ife | apply ok_if | apply ok_fun_if ].
@@ -292,6 +361,9 @@ Lemma ok_tev hb ib acts code obj val : okM (tev hb ib acts code obj val).
 Proof.
   unfold tev; cbv zeta.
   repeat match goal with |- okM (match ?c with _ => _ end) => destruct c end; okt.
+  all: intros s R; destruct (lst s (tL s)) as [|e l]; [constructor|]; destruct (elk e); [|apply ok_doA; auto].
+  all: apply Forall_app; split; [destruct (tnow s <? edl e)%N; [apply ok_doA; auto | constructor] |].
+  all: apply (ok_bnd (raise_to (edl e)) (doA (TStep 0))); auto using ok_raise_to, ok_doA.
 Qed.
 
 Lemma ok_uev hb ib a code obj val : okM (uev hb ib a code obj val).
